@@ -715,6 +715,79 @@ def tabCtl (cs : CSites) (ctlId : Str) (bgId cgId : Option Str) (left : Bool) (s
         [tabContents selected 0 tabs],
       c!"</td></tr>" ]
 
+/-! ### (6) text inside JavaScript string literals (`Html.escape(s, javascript_str=True)`)
+
+Interactive controls update an already rendered page by running scripts such as
+`elem.textContent = "<text>";` (views/html/controls/base.py `_update_text`, `_update_inner_html`,
+`_insert_adjacent_html`, `_add_css_rules`). -/
+
+def chCR : Char := Char.ofNat 13
+def chLF : Char := Char.ofNat 10
+def chTAB : Char := Char.ofNat 9
+
+/-- `Html.escape(s, javascript_str=True)` (views/html/base.py:365-373): backslash FIRST, then `"`,
+CR, LF, TAB. These five characters are all the code covers; every other character (also `'`,
+`<`, `/`, NUL, U+2028, U+2029) is written as it is. -/
+def jsEscapeChar (c : Char) : Str :=
+  if c = '\\' then ['\\', '\\']
+  else if c = '"' then ['\\', '"']
+  else if c = chCR then ['\\', 'r']
+  else if c = chLF then ['\\', 'n']
+  else if c = chTAB then ['\\', 't']
+  else [c]
+
+def jsEscape : Str → Str
+  | [] => []
+  | c :: s => jsEscapeChar c ++ jsEscape s
+
+/-- The character a single-character escape `\c` denotes in a JavaScript string literal
+(ECMAScript SingleEscapeCharacter / NonEscapeCharacter). `none`: `\x`, `\u`, a digit other than
+`0`, or a line terminator after the backslash — sequences this strict reader does not accept. -/
+def jsUnescapeChar (c : Char) : Option Char :=
+  if c = 'n' then some chLF
+  else if c = 'r' then some chCR
+  else if c = 't' then some chTAB
+  else if c = 'b' then some (Char.ofNat 8)
+  else if c = 'f' then some (Char.ofNat 12)
+  else if c = 'v' then some (Char.ofNat 11)
+  else if c = '0' then some (Char.ofNat 0)
+  else if c = 'x' || c = 'u' || ('1' ≤ c && c ≤ '9') || c = chLF || c = chCR
+          || c = Char.ofNat 0x2028 || c = Char.ofNat 0x2029 then none
+  else some c
+
+/-- A JavaScript double-quoted string-literal reader (ES2019: U+2028 / U+2029 may occur raw),
+started just after the opening quote: returns the denoted string and the input after the closing
+quote; `none` if the literal is not terminated on its line or uses an unsupported escape. -/
+def jsRead : Str → Option (Str × Str)
+  | [] => none
+  | c :: r =>
+    if c = '"' then some ([], r)
+    else if c = chLF || c = chCR then none
+    else if c = '\\' then
+      match r with
+      | [] => none
+      | d :: r' =>
+        match jsUnescapeChar d with
+        | none => none
+        | some x => (jsRead r').map (fun (v, rest) => (x :: v, rest))
+    else (jsRead r).map (fun (v, rest) => (c :: v, rest))
+
+/-- The text the update scripts put between the quotes of `elem.<prop> = "…";` /
+`insertAdjacentHTML("pos", "…")`: escaped or not, per site (T-ESC `jsSiteTable`). -/
+def jsEmit (escaped : Bool) (text : Str) : Str := if escaped then jsEscape text else text
+
+/-- `elem.<prop> = "<text>";` from just after the opening quote. -/
+def jsAssignTail (escaped : Bool) (text : Str) : Str := jsEmit escaped text ++ c!"\";"
+
+/-- A table-driven escape (what T-ESC extracts from the source): first matching entry wins. -/
+def jsLookup : List (Char × Str) → Char → Str
+  | [], c => [c]
+  | (a, r) :: t, c => if c = a then r else jsLookup t c
+
+def jsEscapeWith (table : List (Char × Str)) : Str → Str
+  | [] => []
+  | c :: s => jsLookup table c ++ jsEscapeWith table s
+
 /-! ### what the property expects to find in the output -/
 
 mutual
